@@ -37,7 +37,8 @@ class _BaseLSML(MahalanobisMixin):
     if weights is None:
       self.w_ = np.ones(vab.shape[0])
     else:
-      self.w_ = weights
+      # (a float copy: lists are accepted and the caller's array is not modified)
+      self.w_ = np.array(weights, dtype=float)
     self.w_ /= self.w_.sum()  # weights must sum to 1
     M, prior_inv = _initialize_metric_mahalanobis(
         quadruplets, self.prior,
@@ -100,10 +101,11 @@ class _BaseLSML(MahalanobisMixin):
     dcds = np.sum(vcd.dot(metric) * vcd, axis=1)
     violations = dabs > dcds
     # TODO: vectorize
-    for vab, dab, vcd, dcd in zip(vab[violations], dabs[violations],
-                                  vcd[violations], dcds[violations]):
-      dMetric += ((1 - np.sqrt(dcd / dab)) * np.outer(vab, vab) +
-                  (1 - np.sqrt(dab / dcd)) * np.outer(vcd, vcd))
+    for vab, dab, vcd, dcd, w in zip(vab[violations], dabs[violations],
+                                     vcd[violations], dcds[violations],
+                                     self.w_[violations]):
+      dMetric += w * ((1 - np.sqrt(dcd / dab)) * np.outer(vab, vab) +
+                      (1 - np.sqrt(dab / dcd)) * np.outer(vcd, vcd))
     return dMetric
 
 
